@@ -132,6 +132,9 @@ func crashCases() [][]Op {
 		[]Op{save("save", &[3]uint64{1, 1, 29000}, nil, three), save("csave", &[3]uint64{2, 1, 29991}, nil, seg(29990, 2, 2, 0, 5, 900)), {K: "reopen"}, {K: "sum"}},
 		// K8: crash points inside DeleteBefore across two files
 		[]Op{save("save", nil, nil, three), {K: "cdel", I: 60002}, {K: "sum"}, {K: "reopen"}, {K: "sum"}},
+		// K10: a snapshot whose record (20 + ~6000 bytes at offset 1024 of raft.meta) spans three pages: crash points and page cuts
+		[]Op{save("save", &[3]uint64{1, 1, 5}, nil, seg(1, 8, 1, 0, 7, 3)), {K: "csnap", I: 3, Snap: &SnapD{V: v3, D: 5}},
+			{K: "ccsnap", I: 5, Snap: &SnapD{V: v3, D: 7, DL: 6000}}, {K: "meta"}, {K: "reopen"}, {K: "meta"}},
 		// K9: crash points inside CreateSnapshot
 		[]Op{save("save", &[3]uint64{1, 1, 5}, nil, seg(1, 8, 1, 0, 7, 3)), {K: "ccsnap", I: 5, Snap: &SnapD{V: v3, D: 7}}, {K: "meta"}, {K: "reopen"}, {K: "meta"}},
 	)
@@ -139,6 +142,11 @@ func crashCases() [][]Op {
 	for _, k := range []uint64{0, 1, 2, 4, 5} {
 		cs = append(cs, []Op{save("save", nil, nil, three),
 			{K: "fsave", I: k, HS: &[3]uint64{2, 1, 29991}, Segs: []Seg{seg(29990, 2, 2, 0, 5, 900)}}, {K: "term", I: 29990}, {K: "reopen"}, {K: "sum"}})
+	}
+	// a piece of a multi-piece clear of the CURRENT file fails (conflict at index 2 of 1000: eight pieces, top down)
+	for _, k := range []uint64{1, 3} {
+		cs = append(cs, []Op{save("save", &[3]uint64{1, 1, 1}, nil, seg(1, 1000, 1, 0, 3, 11)),
+			{K: "fsave", I: k, HS: &[3]uint64{2, 1, 2}, Segs: []Seg{seg(2, 3, 2, 0, 5, 50)}}, {K: "term", I: 2}, {K: "reopen"}, {K: "sum"}})
 	}
 	// a removal fails inside DeleteBefore: without a snapshot (nothing repairs the directory at the next start), and with one
 	for k := uint64(0); k < 2; k++ {
@@ -508,6 +516,9 @@ func (g *caseGen) next(w *world, step int) *Op {
 		d := &SnapD{D: uint64(r.Intn(60000))}
 		if r.Chance(2, 3) {
 			d.V = []uint64{1, 2, 3}[:r.Range(0, 3)]
+		}
+		if r.Chance(1, 12) {
+			d.DL = r.Range(3000, 9000) // a snapshot record that spans pages of raft.meta
 		}
 		op := &Op{K: "csnap", I: g.aim(i, first, last), Snap: d}
 		if r.Chance(1, 8) {
